@@ -1072,6 +1072,7 @@ bool Builder::FinishCommand(BuildResult::CommandCompleted& result,
       VERIF_CRASH_POINT("finish-between-depslog-records");
     }
   }
+  VERIF_CRASH_POINT("finish-after-depslog");
 
   if (scan_.build_log()) {
     if (!scan_.build_log()->RecordCommand(
